@@ -28,6 +28,10 @@ QUERIES = [  # (name, sql, mode choices, tables)
     ("tumbling", "SELECT g, sum(v) AS s, collect(arr) AS a FROM stream GROUP BY g, TumblingWindow('10s') WITH (TIMESTAMP='ts', TIMEUNIT='ms')", ["emit"], None),
     ("join", "SELECT id, m.loc AS loc FROM stream LEFT JOIN meta m ON k = m.k", ["emit", "sync"], [{"name": "meta", "rows": [{"k": 1, "loc": "L1", "extra": {"n": 1}}]}]),
     ("join_window", "SELECT m.loc AS loc, count(*) AS c FROM stream JOIN meta m ON k = m.k GROUP BY m.loc, CountingWindow(2)", ["emit"], [{"name": "meta", "rows": [{"k": 1, "loc": "L1"}, {"k": 2, "loc": "L2"}]}]),
+    # post-aggregation clauses over several consecutive batches: a batch handed to a sink stays what it was when later batches are filtered / sorted / cut
+    ("counting_having", "SELECT g, count(*) AS c, sum(w) AS s FROM stream GROUP BY g, CountingWindow(2) HAVING c > 1", ["emit"], None),
+    ("counting_having_order", "SELECT g, count(*) AS c, max(w) AS s FROM stream GROUP BY g, CountingWindow(2) HAVING max(w) >= 0 ORDER BY s DESC LIMIT 5", ["emit"], None),
+    ("counting_distinct", "SELECT DISTINCT g, count(*) AS c FROM stream GROUP BY g, CountingWindow(2)", ["emit"], None),
     ("unnest", "SELECT id, unnest(readings) AS r FROM stream", ["emit"], None),
     ("case", "SELECT id, CASE WHEN v > 1 THEN 'hi' ELSE 'lo' END AS lvl FROM stream", ["emit", "sync"], None),
     ("global", "SELECT g, count(*) AS c FROM stream GROUP BY g, GLOBAL WINDOW TRIGGER WHEN COUNT(*) >= 2", ["emit"], None),
